@@ -77,6 +77,8 @@ def _drive(args):
             ev.append(pev('pvv', pin, pan, idx=idx, key=key, kind=kind, out=pinc.safe_digits(out_) if kind == 'ok' else ()))
             kind, out_ = call(lambda: pinc.Aes4(pin).to_pvv(key.hex(), key_index=idx, card_number=pan))
             ev.append(pev('pvv', pin, pan, idx=idx, key=key, kind=kind, out=pinc.safe_digits(out_) if kind == 'ok' else ()))
+            kind, out_ = call(lambda: pinc.Tdes0Variant(pin, card_number=pan).to_pvv(key.hex(), key_index=idx))
+            ev.append(pev('pvv', pin, pan, idx=idx, key=key, kind=kind, out=pinc.safe_digits(out_) if kind == 'ok' else ()))
         if tid % 3 == 1 and len(pan) >= 13:
             # the PVV of objects REBUILT from block bytes (clear and encrypted): the object carries the same PIN and card
             tk = bytes(r.randrange(256) for _ in range(16)).hex()
